@@ -35,6 +35,7 @@ type bInput struct {
 	SignReq bool   `json:"signReq"`
 	Alg     string `json:"alg"`
 	Keycfg  string `json:"keycfg"`
+	InLimit string `json:"inlimit"`
 	Keytype string `json:"keytype"`
 	Doc     string `json:"doc"`
 }
@@ -78,6 +79,9 @@ func relayFor(class string, rng *rand.Rand) string {
 	switch class {
 	case "empty":
 		return ""
+	case "blank":
+		// a non-empty relay state made of white space only: it is given, so it is delivered
+		return []string{" ", "\t", "\r\n", "  \t \n", "\n", "   "}[rng.Intn(6)]
 	case "plain":
 		return "state-" + GenXMLString(rng, 0, 20)
 	case "escape":
@@ -134,6 +138,9 @@ func bindingsSP(in *bInput) (*saml2.SAMLServiceProvider, string) {
 	if hasFragment(in.Idpurl) {
 		sp.IdentityProviderSSOURL += idpFragment
 		sp.IdentityProviderSLOURL += idpFragment
+	}
+	if in.InLimit == "small" {
+		sp.MaximumDecompressedBodySize = 200 // an inbound bound: below the size of every outgoing message
 	}
 	if in.Doc == "builtCR" {
 		// caller strings whose serialised form differs between escaping styles
